@@ -307,6 +307,39 @@ def rule_injective(program, ctx, prop=P, rid="C10.injective"):
                                      "(the supersede scan of WriterThread._post_save treats every hit as an older version by the same author)", text=f"def convert(...) :: {ci.node.name}"))
 
 
+def rule_registry_fixed(program, ctx, prop=P, rid="C10.registry"):
+    ctx.rule(
+        rid,
+        "the key generators that write an entry are the ones that clear it, whenever that happens: kv.INDEXES is populated once in kv.py and never re-assigned from outside "
+        "(a recipe installing its own TagIndex subclass), and no `convert` / `to_key` of an index class - including subclasses anywhere in the package - reads configuration "
+        "(Config.*): entries written under yesterday's whitelist are not the entries derived for deletion under today's",
+        floor=1,
+    )
+    n = 0
+    for m in program.modules.values():
+        if not m.name.startswith("nostr_relay"):
+            continue
+        for x in ast.walk(m.tree):
+            tg = x.targets if isinstance(x, ast.Assign) else [x.target] if isinstance(x, ast.AugAssign) else []
+            for t in tg:
+                if isinstance(t, ast.Subscript) and dotted(t.value).split(".")[-1] == "INDEXES" and m.name != "nostr_relay.storage.kv":
+                    n += 1
+                    ctx.bad(finding_at(prop, rid, x, f"{m.name.split('.')[-1]} replaces an entry of kv.INDEXES (`{ast.unparse(x)[:60]}`): records indexed before the swap are cleared with another key generator"))
+    base = program.cls("nostr_relay.storage.kv:Index")
+    for ci in program.subclasses(base):
+        for name in ("convert", "to_key"):
+            fn = ci.methods.get(name)
+            if fn is None:
+                continue
+            cfgs = [a for a in ast.walk(fn) if isinstance(a, ast.Attribute) and isinstance(a.value, ast.Name) and a.value.id == "Config"]
+            if cfgs:
+                n += 1
+                ctx.bad(finding_at(prop, rid, cfgs[0], f"{ci.node.name}.{name} reads `{ast.unparse(cfgs[0])}`: the keys derived for an event change with the configuration, so entries written earlier "
+                                   "are not found for deletion later"))
+    if not n:
+        ctx.ok(rid, base.node, "index registry fixed; key generators are functions of the event alone")
+
+
 def rule_render(program, ctx, prop=P, rid="C10.render"):
     ctx.rule(
         rid,
@@ -348,6 +381,11 @@ def run(program, ctx):
     rule_keyspace(program, ctx)
     rule_injective(program, ctx)
     rule_render(program, ctx)
+    rule_registry_fixed(program, ctx)
+    from . import c04 as _c04i
+
+    # the stored record is re-read to derive the keys to clear: nothing between admission and the writer may rewrite the event's tags
+    _c04i.rule_immutable(program, ctx, prop=P, rid="C10.immutable")
     c07.rule_ctxmgr(program, ctx, prop=P, rid="C10.ctxmgr")
     from . import c01
 
